@@ -5,7 +5,7 @@ PROP = {
     "coq_targets": ["theories/Flow/C17Check"],
     "n": {"quick": 480, "thorough": 12000},
     "theorems": ["spo_sound", "spo_unknown", "spo_completes"],
-    "rule": "random IL functions over the stack pointer of one of the seven architectures (1-6 blocks, <=4 instructions each): "
+    "rule": "1/5 of the cases: prologue/epilogue machine code (push/pop, sub/add sp, and-mask, leave, frame-pointer moves, saves/restores of the link register, ret) for x86, amd64, mips, mipsel, ppc, aarch64 lifted by the real translators (Translator::translate_function) and analysed with the matching Architecture; otherwise random IL functions over the stack pointer of one of the seven architectures (1-6 blocks, <=4 instructions each): "
             "push/pop-like `sp = sp -/+ c`, `c + sp`, nested `(sp + c) - 4`, sp-relative stores/loads, `fp = sp`, `sp = fp`, loads into sp, "
             "and-masking, `sp = const`, other non-affine updates, temporaries, intrinsics; chains, diamonds with unbalanced arms, loops, "
             "entry block inside a loop in ~1/12; 3 executions each from random initial stack pointers (incl. wrapping ones); "
@@ -14,5 +14,5 @@ PROP = {
     "assumptions": ["cfg_inv (C15) and sp_wf (1 <= w <= 64, one width for the stack pointer's name, well-sorted sources assigned to it) for the theorems", "reported integers are read modulo 2^w (DESIGN.md)", "executions are those of Exec/Sem.v"],
     "partial": [],
     "level_text": "Unbounded Coq theorems about a Gallina transcription of stack_pointer_offsets.rs (as repaired) run through the C09 engine model, parameterised by the stack-pointer scalar: for every function whose entry block has no incoming edge and every stack-pointer width 1..64, the analysis completes within the C09 step bound, every reported number k satisfies sp_after = (sp_entry + k) mod 2^w on every execution of the reference IL semantics, and loads into sp / non-affine sources / disagreeing predecessors never yield a number. Plus an in-kernel differential tie of the model to the Rust code for the stack pointers of all seven architectures and an execution-based oracle on generated functions.",
-    "level_note": "Trusted: Coq kernel + vm_compute; the harness; Exec/Sem.v as the meaning of execution; Architecture::stack_pointer() is read from the Rust code by the harness (not modelled); inputs are IL functions built through the il API, not lifted bytes; the model is hand-written and tied differentially.",
+    "level_note": "Trusted: Coq kernel + vm_compute; the harness; Exec/Sem.v as the meaning of execution; Architecture::stack_pointer() is read from the Rust code by the harness (not modelled); one fifth of the inputs are lifted from machine code by the real translators, the others are IL functions built through the il API; the model is hand-written and tied differentially.",
 }
